@@ -228,12 +228,19 @@ func checkCase(t fataler, base infoM, vs []variant, primary crypto.Hash) {
 				ev.Class("xml-decode-error")
 				ev.Note("generated XML did not decode (%v): %s", err, v)
 			} else if got := modelOf(in); !sameContent(got, v.m) {
-				// not a C20 matter (decoder, Submit or harness writer); make it
-				// visible and do not compare this variant with the model
+				// the value the library hashes is not what the peer sent (or what was
+				// submitted): the verification string of a peer's reply is the
+				// construction over the reply, so this is reported with the hash it
+				// leads to (never seen on the unchanged tree in 10^8 cases)
 				ev.Class("xml-decoded-differs-from-model")
-				ev.Note("decoded value differs from the model: %s decoded as %s", v, got)
 				if _, p := three(v, primary, nil, 0); p != "" && strings.Contains(p, "panicked") {
 					fail(v, "%s", p)
+				}
+				if lvl >= lvlInvariant {
+					got3, _ := three(v, primary, &in, 3)
+					if exp := refVer(want, primary.New()); got3[0] != exp {
+						fail(v, "the value decoded from the reply differs from the reply in what is hashed (decoded as %s): %s: Hash = %q, XEP-0115 §5.1 gives %q for S = %q", got, primary, got3[0], exp, want)
+					}
 				}
 				continue
 			}
